@@ -108,4 +108,29 @@ Proof.
   rewrite isize_as_usize_nonneg by lia. reflexivity.
 Qed.
 
+(* all of them at once: what a Props file pins as  model_is_source_<property>  *)
+Definition model_is_source_Banded : Prop :=
+  (forall n (a b : nat) x, s_band_new n a b x = Ok (band_new n a b x)) /\
+  (forall B x, s_band_fill B x = band_fill B x) /\
+  (forall B n (a b : nat), s_band_resize B n a b = band_resize B n a b) /\
+  (forall B (b : Z) x, s_band_fill_band B b x = band_fill_band B b x) /\
+  (forall B i j, s_band_get B (i, j) = band_get B i j) /\
+  (forall B, s_band_neg B = band_neg B) /\
+  (forall B C, s_band_add B C = band_add B C) /\
+  (forall B C, s_band_sub B C = band_sub B C) /\
+  (forall B x, s_band_scale B x = band_scale B x) /\
+  (forall B x, s_band_div B x = band_div B x) /\
+  (forall B C, s_band_add_assign B C = band_add_assign B C) /\
+  (forall B C, s_band_sub_assign B C = band_sub_assign B C) /\
+  (forall B x, s_band_mul_assign_s B x = band_mul_assign_s B x) /\
+  (forall B x, s_band_div_assign_s B x = band_div_assign_s B x) /\
+  (forall B x, s_band_add_assign_s B x = band_add_assign_s B x) /\
+  (forall B x, s_band_sub_assign_s B x = band_sub_assign_s B x) /\
+  (forall B (au al : matrix A) (index : list nat) (d : T A), s_decompose B au al index d = decompose_gen false B au al index) /\
+  (forall B, s_band_det B = band_det B) /\
+  (forall B v, s_band_solve B v = band_solve B v) /\
+  (forall B v, s_band_mul B v = band_mul B v).
+Lemma model_is_source_Banded_lemma : model_is_source_Banded.
+Proof. exact (conj src_band_new (conj src_band_fill (conj src_band_resize (conj src_band_fill_band (conj src_band_get (conj src_band_neg (conj src_band_add (conj src_band_sub (conj src_band_scale (conj src_band_div (conj src_band_add_assign (conj src_band_sub_assign (conj src_band_mul_assign_s (conj src_band_div_assign_s (conj src_band_add_assign_s (conj src_band_sub_assign_s (conj src_decompose (conj src_band_det (conj src_band_solve src_band_mul))))))))))))))))))). Qed.
+
 End SrcEqBanded.
